@@ -133,6 +133,12 @@ func runBGVEncoder(c *eng.Ctx, cfg pcfg) {
 		ecd := bgv.NewEncoder(p)
 		if dirty {
 			newPoisoner(rnd, 1).bgvEncoder(ecd)
+			if rnd.Bool() {
+				// a ShallowCopy of a used encoder, itself used
+				ecd = ecd.ShallowCopy()
+				newPoisoner(rnd, 1).bgvEncoder(ecd)
+				c.Count("derived_encoders", 1)
+			}
 		}
 		return ecd
 	}
@@ -316,6 +322,11 @@ func runCKKSEncoder(c *eng.Ctx, cfg pcfg, prec uint) {
 		}
 		if dirty {
 			newPoisoner(rnd, 1).ckksEncoder(ecd)
+			if rnd.Bool() {
+				ecd = ecd.ShallowCopy()
+				newPoisoner(rnd, 1).ckksEncoder(ecd)
+				c.Count("derived_encoders", 1)
+			}
 		}
 		return ecd
 	}
@@ -672,4 +683,219 @@ func copyRows(dst, src ring.Poly) {
 	for i := range dst.Coeffs {
 		copy(dst.Coeffs[i], src.Coeffs[i])
 	}
+}
+
+// ---------------------------------------------------------------------------------------------
+// Allocating variants (EncryptNew, EncryptZeroNew, DecryptNew, Gen...New, GenGaloisKeys[New]) against the
+// in-place forms, objects obtained through ShallowCopy / WithKey / WithPRNG against constructed ones, and
+// reused outputs of a larger degree.
+
+func runEncDec2(c *eng.Ctx, cfg pcfg) {
+	e, err := newRLWEEnv(cfg, c.Rand())
+	if err != nil {
+		c.Inconclusive("parameters rejected: " + err.Error())
+		return
+	}
+	t := &T{c: c, tag: cfg.tag()}
+	rnd := c.Rand()
+	p := e.p
+	rq := p.RingQ()
+	L := p.MaxLevel()
+	c.Sample(map[string]any{"params": cfg, "area": "rlwe.Encryptor/Decryptor/KeyGenerator: New variants, derived objects", "patterns": "fresh,new-vs-inplace,hist-derived-*,hist-out"})
+	reseed := func(tag string) { eng.SeedCryptoRand("c09-reseed2", c.CaseID, tag) }
+	keyOf := func(kind string) rlwe.EncryptionKey {
+		if kind == "pk" {
+			return e.pk
+		}
+		return e.sk
+	}
+	for _, keyKind := range []string{"sk", "pk"} {
+		for _, lvl := range []int{L, 0} {
+			keyKind, lvl := keyKind, lvl
+			variant := fmt.Sprintf("%s/lvl%d", keyKind, lvl)
+			pt0 := rlwe.NewPlaintext(p, lvl)
+			copyRows(pt0.Value, randPoly(rq.AtLevel(lvl), rnd))
+			pt0.Scale = rlwe.NewScale(5)
+			pt0.IsBatched = true
+			// the encryptor of every pattern draws the same randomness: crypto/rand is re-seeded identically
+			// right before the object that creates the PRNG is constructed
+			mkEnc := func(pat string) *rlwe.Encryptor {
+				switch pat {
+				case "hist-derived-shallowcopy":
+					parent := rlwe.NewEncryptor(p, keyOf(keyKind))
+					newPoisoner(rnd, 1).encryptor(parent)
+					reseed(variant)
+					return parent.ShallowCopy()
+				case "hist-derived-withkey":
+					other := "sk"
+					if keyKind == "sk" {
+						other = "pk"
+					}
+					reseed(variant)
+					parent := rlwe.NewEncryptor(p, keyOf(other))
+					newPoisoner(rnd, 1).encryptor(parent)
+					return parent.WithKey(keyOf(keyKind))
+				case "hist-derived-withkey-nil":
+					reseed(variant)
+					parent := rlwe.NewEncryptor(p, keyOf(keyKind))
+					return parent.WithKey(nil)
+				}
+				reseed(variant)
+				return rlwe.NewEncryptor(p, keyOf(keyKind))
+			}
+			pats := []string{"new-vs-inplace", "hist-derived-shallowcopy", "hist-derived-withkey", "hist-derived-withkey-nil", "hist-out"}
+			t.runPatterns("rlwe.Encryptor.EncryptNew", variant, keyKind, pats, func(pat string) ([]named, func() (string, error)) {
+				enc := mkEnc(pat)
+				pt := pt0.CopyNew()
+				switch pat {
+				case "new-vs-inplace":
+					ct := rlwe.NewCiphertext(p, 1, lvl)
+					return nil, func() (string, error) { err := enc.Encrypt(pt, ct); return ctString(rq, ct), err }
+				case "hist-out":
+					// a reused output of degree 2 that held a top-level value, through the in-place form
+					ct := rlwe.NewCiphertext(p, 2, L)
+					fillResidues(rq, ct, rnd)
+					ct.Scale = rlwe.NewScale(9)
+					return nil, func() (string, error) { err := enc.Encrypt(pt, ct); return ctString(rq, ct), err }
+				}
+				return []named{{"pt", pt}, {"key", keyOf(keyKind)}}, func() (string, error) {
+					ct, err := enc.EncryptNew(pt)
+					if err != nil {
+						return "", err
+					}
+					return ctString(rq, ct), nil
+				}
+			})
+			t.runPatterns("rlwe.Encryptor.EncryptZeroNew", variant, keyKind, []string{"new-vs-inplace", "hist-derived-shallowcopy", "hist-out"}, func(pat string) ([]named, func() (string, error)) {
+				enc := mkEnc(pat)
+				switch pat {
+				case "new-vs-inplace":
+					ct := rlwe.NewCiphertext(p, 1, lvl)
+					return nil, func() (string, error) { err := enc.EncryptZero(ct); return ctString(rq, ct), err }
+				case "hist-out":
+					ct := rlwe.NewCiphertext(p, 2, L)
+					fillResidues(rq, ct, rnd)
+					ct.Resize(2, lvl)
+					return nil, func() (string, error) { err := enc.EncryptZero(ct); return ctString(rq, ct), err }
+				}
+				return []named{{"key", keyOf(keyKind)}}, func() (string, error) { return ctString(rq, enc.EncryptZeroNew(lvl)), nil }
+			})
+			// WithPRNG: two encryptors given identically keyed PRNGs produce the same uniform part, whatever they did before
+			if keyKind == "sk" {
+				t.runPatterns("rlwe.Encryptor.WithPRNG", variant, keyKind, []string{"hist-dirty"}, func(pat string) ([]named, func() (string, error)) {
+					reseed(variant)
+					enc := rlwe.NewEncryptor(p, e.sk)
+					if pat == "hist-dirty" {
+						newPoisoner(rnd, 1).encryptor(enc)
+					}
+					enc = enc.WithPRNG(keyedPRNG("withprng"))
+					pt := pt0.CopyNew()
+					return []named{{"pt", pt}, {"key", e.sk}}, func() (string, error) {
+						ct, err := enc.EncryptNew(pt)
+						if err != nil {
+							return "", err
+						}
+						return ctString(rq, ct), nil
+					}
+				})
+			}
+		}
+	}
+	// ---- decryption: DecryptNew, ShallowCopy / WithKey of a used decryptor
+	for _, v := range []struct{ lvl, deg int }{{L, 1}, {0, 2}, {min(1, L), 1}} {
+		v := v
+		ct0 := e.ct(v.lvl, v.deg)
+		t.runPatterns("rlwe.Decryptor.DecryptNew", fmt.Sprintf("lvl%d/deg%d", v.lvl, v.deg), "", []string{"new-vs-inplace", "hist-derived-shallowcopy", "hist-derived-withkey"}, func(pat string) ([]named, func() (string, error)) {
+			dec := rlwe.NewDecryptor(p, e.sk)
+			switch pat {
+			case "hist-derived-shallowcopy":
+				newPoisoner(rnd, 1).decryptor(dec)
+				dec = dec.ShallowCopy()
+			case "hist-derived-withkey":
+				dec = rlwe.NewDecryptor(p, e.sk2)
+				newPoisoner(rnd, 1).decryptor(dec)
+				dec = dec.WithKey(e.sk)
+			}
+			ct := ct0.CopyNew()
+			if pat == "new-vs-inplace" {
+				pt := rlwe.NewPlaintext(p, v.lvl)
+				return nil, func() (string, error) { dec.Decrypt(ct, pt); return ptCanon(rq, pt), nil }
+			}
+			return []named{{"ct", ct}, {"sk", e.sk}}, func() (string, error) { return ptCanon(rq, dec.DecryptNew(ct)), nil }
+		})
+	}
+	// ---- key generation: New variants and the slice forms
+	mkKgen := func(tag string) *rlwe.KeyGenerator { reseed(tag); return rlwe.NewKeyGenerator(p) }
+	t.runPatterns("rlwe.KeyGenerator.GenSecretKeyNew", "-", "", []string{"new-vs-inplace"}, func(pat string) ([]named, func() (string, error)) {
+		kg := mkKgen("sk")
+		if pat == "new-vs-inplace" {
+			sk := rlwe.NewSecretKey(p)
+			return nil, func() (string, error) { kg.GenSecretKey(sk); return snapString(sk), nil }
+		}
+		return nil, func() (string, error) { return snapString(kg.GenSecretKeyNew()), nil }
+	})
+	t.runPatterns("rlwe.KeyGenerator.GenPublicKeyNew", "-", "", []string{"new-vs-inplace"}, func(pat string) ([]named, func() (string, error)) {
+		kg := mkKgen("pk")
+		sk := e.sk.CopyNew()
+		if pat == "new-vs-inplace" {
+			pk := rlwe.NewPublicKey(p)
+			return nil, func() (string, error) { kg.GenPublicKey(sk, pk); return snapString(pk), nil }
+		}
+		return []named{{"sk", sk}}, func() (string, error) { return snapString(kg.GenPublicKeyNew(sk)), nil }
+	})
+	t.runPatterns("rlwe.KeyGenerator.GenRelinearizationKeyNew", "-", "", []string{"new-vs-inplace"}, func(pat string) ([]named, func() (string, error)) {
+		kg := mkKgen("rlk")
+		sk := e.sk.CopyNew()
+		if pat == "new-vs-inplace" {
+			k := rlwe.NewRelinearizationKey(p, e.evkPs...)
+			return nil, func() (string, error) { kg.GenRelinearizationKey(sk, k); return snapString(k), nil }
+		}
+		return []named{{"sk", sk}}, func() (string, error) { return snapString(kg.GenRelinearizationKeyNew(sk, e.evkPs...)), nil }
+	})
+	t.runPatterns("rlwe.KeyGenerator.GenEvaluationKeyNew", "-", "", []string{"new-vs-inplace", "skIn=skOut"}, func(pat string) ([]named, func() (string, error)) {
+		kg := mkKgen("evk")
+		sk, sk2 := e.sk.CopyNew(), e.sk.CopyNew()
+		switch pat {
+		case "new-vs-inplace":
+			k := rlwe.NewEvaluationKey(p, e.evkPs...)
+			return nil, func() (string, error) { kg.GenEvaluationKey(sk, sk2, k); return snapString(k), nil }
+		case "skIn=skOut":
+			return []named{{"skIn", sk}}, func() (string, error) { return snapString(kg.GenEvaluationKeyNew(sk, sk, e.evkPs...)), nil }
+		}
+		return []named{{"skIn", sk}, {"skOut", sk2}}, func() (string, error) { return snapString(kg.GenEvaluationKeyNew(sk, sk2, e.evkPs...)), nil }
+	})
+	galEls0 := []uint64{e.galEl, p.GaloisElement(1), p.GaloisElement(2)}
+	gksString := func(gks []*rlwe.GaloisKey) string {
+		out := ""
+		for _, k := range gks {
+			out += snapString(k) + "#"
+		}
+		return out
+	}
+	t.runPatterns("rlwe.KeyGenerator.GenGaloisKeysNew", "-", "", []string{"new-vs-inplace", "new-vs-single", "hist-out"}, func(pat string) ([]named, func() (string, error)) {
+		kg := mkKgen("gks")
+		sk := e.sk.CopyNew()
+		galEls := append([]uint64(nil), galEls0...)
+		switch pat {
+		case "new-vs-inplace", "hist-out":
+			gks := make([]*rlwe.GaloisKey, len(galEls))
+			for i := range gks {
+				gks[i] = rlwe.NewGaloisKey(p, e.evkPs...)
+				if pat == "hist-out" {
+					newPoisoner(rnd, 1).value(reflectValueOf(&gks[i].GadgetCiphertext.Value), 0)
+					gks[i].GaloisElement, gks[i].NthRoot = 99, 5
+				}
+			}
+			return []named{{"galEls", &galEls}, {"sk", sk}}, func() (string, error) { kg.GenGaloisKeys(galEls, sk, gks); return gksString(gks), nil }
+		case "new-vs-single":
+			return nil, func() (string, error) {
+				var gks []*rlwe.GaloisKey
+				for _, g := range galEls {
+					gks = append(gks, kg.GenGaloisKeyNew(g, sk, e.evkPs...))
+				}
+				return gksString(gks), nil
+			}
+		}
+		return []named{{"galEls", &galEls}, {"sk", sk}}, func() (string, error) { return gksString(kg.GenGaloisKeysNew(galEls, sk, e.evkPs...)), nil }
+	})
 }
